@@ -143,6 +143,42 @@ pub fn c01_gen<N: Nd>(n: &mut N, kind: u8, ck: u8) {
     vcover!(!legal && refm::pseudo_targets(&p, f) & bit(t) != 0, "pseudo-legal but illegal");
 }
 
+/// (2'): the same with TWO origins of the generator's kind in the mask: the loop's
+/// second iteration behaves like its first (every move of either origin exactly once,
+/// nothing else; at most two batches per origin).
+pub fn c01_gen2<N: Nd>(n: &mut N, kind: u8, ck: u8) {
+    let (p, half, full) = sym_accepted(n);
+    let (f, t, pr) = sym_move(n);
+    let g = n.u8();
+    n.assume(g < 64 && g != f);
+    kind_cube(n, &p, f, kind);
+    kind_cube(n, &p, g, kind);
+    ck_cube(n, &p, ck);
+    describe(n, &p, half, full, f, t, pr);
+    if n.native() {
+        println!("witness: second origin {}", sq(g));
+    }
+    let b = board_of(&p, half, full, n.u64());
+    let mask = bit(f) | bit(g);
+    let mut calls = 0u32;
+    let mut count = 0u32;
+    let mut shape_ok = true;
+    let r = b.verif_add_legals(kind, ck == 1 || ck == 2, BitBoard(mask), &mut |pm: PieceMoves| {
+        calls += 1;
+        shape_ok &= !pm.is_empty() && (mask >> (pm.from as u8)) & 1 != 0 && pm.piece as u8 == kind;
+        if in_batch(&pm, f, t, pr) {
+            count += 1;
+        }
+        false
+    });
+    let legal = refm::legal(&p, f, t, pr);
+    assert!(!r);
+    assert!(shape_ok);
+    assert!(count == legal as u32);
+    assert!(calls <= 4);
+    vcover!(legal && calls >= 2, "both origins produce a batch");
+}
+
 /// (2) for the abort contract: the listener answers true at call index `stop`.
 pub fn c16_gen_abort<N: Nd>(n: &mut N, kind: u8, ck: u8) {
     let (p, half, full) = sym_accepted(n);
@@ -609,6 +645,17 @@ macro_rules! bproofs {
 }
 
 bproofs! {
+    c01_gen2_pawn_c1 => |n: &mut _| c01_gen2(n, 0, 1);
+    c01_gen2_pawn_c3 => |n: &mut _| c01_gen2(n, 0, 3);
+    c01_gen2_pawn_c4 => |n: &mut _| c01_gen2(n, 0, 4);
+    c01_gen2_knight_c0 => |n: &mut _| c01_gen2(n, 1, 0);
+    c01_gen2_knight_c1 => |n: &mut _| c01_gen2(n, 1, 1);
+    c01_gen2_bishop_c0 => |n: &mut _| c01_gen2(n, 2, 0);
+    c01_gen2_bishop_c1 => |n: &mut _| c01_gen2(n, 2, 1);
+    c01_gen2_rook_c0 => |n: &mut _| c01_gen2(n, 3, 0);
+    c01_gen2_rook_c1 => |n: &mut _| c01_gen2(n, 3, 1);
+    c01_gen2_queen_c0 => |n: &mut _| c01_gen2(n, 4, 0);
+    c01_gen2_queen_c1 => |n: &mut _| c01_gen2(n, 4, 1);
     c01_gen_pawn_c3 => |n: &mut _| c01_gen(n, 0, 3);
     c16_gen_abort_pawn_c3 => |n: &mut _| c16_gen_abort(n, 0, 3);
     c16_silent_pawn_c3 => |n: &mut _| c16_silent(n, 0, 3);
